@@ -45,6 +45,10 @@ pub fn run_c11(_prop: &str, _tier: Tier, run_seed: u64, ov: &Value) -> RunOut {
             let total_rows: i64 = truth.iter().flat_map(|(_, r)| r.iter().map(|x| x.0)).sum();
             let total_bytes: i64 = truth.iter().flat_map(|(_, r)| r.iter().filter(|x| x.0 > 0).map(|x| x.1.max(0))).sum();
             let mut feats = vec![format!("same_name_dirs:{}", lay.same_name_dirs)];
+            if !lay.empty_row_groups.is_empty() {
+                feats.push("layout:empty_row_groups".to_string());
+                out.bump("probe.empty_row_groups_in_footer");
+            }
             if lay.same_name_dirs && files0.len() > 1 {
                 feats.push("equal_file_names".to_string());
                 out.bump("probe.equal_file_names");
@@ -177,16 +181,24 @@ pub fn run_c13(_prop: &str, _tier: Tier, run_seed: u64, ov: &Value) -> RunOut {
             let ti = sc.world.tables.iter().position(|t| t.name == table).unwrap();
             let lay = &sc.world.layouts[ti];
             let mut feats = vec![format!("family:{}", st.family)];
+            if !lay.empty_row_groups.is_empty() {
+                feats.push("layout:empty_row_groups".to_string());
+            }
             if lay.same_name_dirs && lay.file_cuts.len() > 0 {
                 feats.push("equal_file_names".to_string());
             }
             // the statement to reassemble: a plain select (filter family) or COUNT(*)
             let is_count = st.family != "filter";
+            // an unordered page (LIMIT without ORDER BY) means nothing per shard: drop it
+            let base_sql = match st.sql.find(" LIMIT ") {
+                Some(i) if !st.sql.contains(" ORDER BY ") => st.sql[..i].to_string(),
+                _ => st.sql.clone(),
+            };
             let sql = if is_count {
-                let wh = st.sql.find(" WHERE ").map(|i| st.sql[i..].to_string()).unwrap_or_default();
+                let wh = base_sql.find(" WHERE ").map(|i| base_sql[i..].to_string()).unwrap_or_default();
                 format!("SELECT COUNT(*) AS n FROM {table}{wh}")
             } else {
-                st.sql.clone()
+                base_sql.clone()
             };
             let expect = outcome_of(sc.world.single.sql(&sql).await);
             let n = 1 + er.usize(8);
